@@ -17,6 +17,10 @@ from props.engine_common import plain
 
 ATOM_TEXT = {'txt': 'ALFA', 'quote': '"', 'backslash': '\\', 'endscript': '</script>', 'css_ph': '/* CSS_PLACEHOLDER */',
              'data_ph': '/* DATA_PLACEHOLDER */', 'js_ph': '/* JS_PLACEHOLDER */', 'nonascii': 'Zürich ✓ 東京'}
+# the "plain text" atom is whatever a bank writes into a description: also text that looks like markup to an HTML tokenizer or
+# like syntax to a JavaScript / JSON reader.  It has no meaning of its own in a report - it must come back as it went in
+TXT_FORMS = ['ALFA', 'ACH DEBIT <!-- REF 8841 --> ACME', '<script>x', ']]> <![CDATA[', '&amp; &lt;b&gt; &#39;', "';alert(1)//", '<!--<script>',
+             '--> <!--', '${amount} `tick`', '\\u0041 \\n \\!', '<\\/ </ <\\!--', '\u2028line\u2029sep', '{{ merchant }} {% x %}', '<!doctype html><body>']
 _KNOWN_PH = {'/* CSS_PLACEHOLDER */', '/* DATA_PLACEHOLDER */', '/* JS_PLACEHOLDER */'}
 
 
@@ -82,7 +86,8 @@ def build_txns(data_atoms, names, rnd, variant):
     end = END_TAGS[variant % len(END_TAGS)]
     extra = harvest_placeholders()
     xph = ' '.join(extra) if extra else 'XPH'         # no further placeholder in this template: the atom is plain text
-    desc = ' '.join(end if a == 'endscript' else xph if a == 'x_ph' else ATOM_TEXT[a] for a in data_atoms) or 'PLAIN'
+    desc = ' '.join(end if a == 'endscript' else xph if a == 'x_ph' else TXT_FORMS[variant % len(TXT_FORMS)] if a == 'txt' else ATOM_TEXT[a]
+                    for a in data_atoms) or 'PLAIN'
     n1 = ''.join(NAME_TEXT[a] for a in names[0])
     n2 = ''.join(NAME_TEXT[a] for a in names[1])
     d = datetime.datetime
